@@ -428,11 +428,96 @@ fn run_cmd(cmd: &str, args: &Args) -> String {
         "verr" => cmd_verr(args),
         "kerr" => cmd_kerr(args),
         "kperr" => cmd_kperr(args),
-        "deerr" => cmd_deerr(args),
+        // tags `cmd_deerr` does not know are looked up in the additional types at the end of this file
+        "deerr" => match cmd_deerr(args).as_str() {
+            "unknown-type" => extra::cmd_deerr2(args),
+            r => r.to_string(),
+        },
         _ => "unknown-command".to_string(),
     }
 }
 
 fn main() {
     verif_harness::main_loop(run_cmd);
+}
+
+// =============================================================================================
+// C15 serde half, additional target types for the located-error model (coq/Model/DeLoc.v,
+// coq/Extract/Cmd_deloc.v tags vdate .. mapinner).  Same observation line as `deerr`.
+// =============================================================================================
+#[allow(dead_code)]
+mod extra {
+    use super::*;
+    use std::collections::BTreeMap;
+
+    #[derive(Deserialize, Debug)]
+    pub struct VD {
+        pub v: Vec<toml_datetime::Date>,
+    }
+    #[derive(Deserialize, Debug)]
+    pub struct SD {
+        pub d: toml_datetime::Date,
+    }
+    #[derive(Deserialize, Debug)]
+    pub struct OD {
+        pub d: Option<toml_datetime::Date>,
+    }
+    #[derive(Deserialize, Debug)]
+    pub enum E3 {
+        N(toml_datetime::Date),
+        T(i64, i64),
+        S { x: i64 },
+        U,
+    }
+    #[derive(Deserialize, Debug)]
+    pub struct SE3 {
+        pub e: E3,
+    }
+    #[derive(Deserialize, Debug)]
+    pub struct TD {
+        pub p: (i64, toml_datetime::Time),
+    }
+    #[derive(Deserialize, Debug)]
+    pub struct VV {
+        pub v: Vec<Vec<i64>>,
+    }
+    #[derive(Deserialize, Debug, PartialEq, Eq, PartialOrd, Ord)]
+    pub enum EK {
+        A,
+        B,
+    }
+    #[derive(Deserialize, Debug)]
+    pub struct ME {
+        pub m: BTreeMap<EK, i64>,
+    }
+    #[derive(Deserialize, Debug)]
+    pub struct MI {
+        pub m: BTreeMap<String, super::ty::Inner>,
+    }
+
+    pub fn cmd_deerr2(args: &Args) -> String {
+        if args.len() < 3 {
+            return "bad-args".into();
+        }
+        let tag = String::from_utf8_lossy(&args[0]).to_string();
+        let Ok(text) = std::str::from_utf8(&args[1]) else { return "notutf8".into() };
+        let Ok(path) = std::str::from_utf8(&args[2]) else { return "notutf8".into() };
+        let (segs, want_key) = parse_path(path);
+        let exp = match toml_edit::ImDocument::parse(text) {
+            Ok(d) => show_span(span_at(d.as_item(), &segs, want_key)),
+            Err(_) => return "parse-error".into(),
+        };
+        let r = match tag.as_str() {
+            "vdate" => routes::<VD>(text),
+            "sdate" => routes::<SD>(text),
+            "odate" => routes::<OD>(text),
+            "enum3" => routes::<SE3>(text),
+            "ttime" => routes::<TD>(text),
+            "vecvec" => routes::<VV>(text),
+            "mapenum" => routes::<ME>(text),
+            "mapinner" => routes::<MI>(text),
+            _ => return "unknown-type".into(),
+        };
+        format!("exp={exp} {r}")
+    }
 }
